@@ -268,7 +268,20 @@ class JsonResource(Resource):
                     from_string = feature._eType.from_string
                     elements = (None if x is None else from_string(x)
                                 for x in value)
-                inst.eGet(feature).extend(list(elements))
+                elements = list(elements)
+                collection = inst.eGet(feature)
+                if feature.is_reference and feature.eOpposite \
+                        and not feature.containment:
+                    # an element already linked from the other end takes
+                    # the position this end's own list gives it
+                    for x in elements:
+                        if getattr(x, 'resolved', True) and x in collection:
+                            collection.remove(x, update_opposite=False)
+                            collection.append(x, update_opposite=False)
+                        else:
+                            collection.append(x)
+                else:
+                    collection.extend(elements)
             elif isinstance(value, str):
                 inst.eSet(feature, feature._eType.from_string(value))
             else:
